@@ -19,7 +19,7 @@ CLAIMED = {
          "descriptor fields named by the property are compared; length fields are informational (the CMAC path rewrites msg_len_to_hash_in_bits)",
          "TLA+ trace validation (errno/status per call) + descriptor snapshots", "5 C14"),
  "C06": ("model_checking",
-         "The whole finite product of suites (21 952 cells) is evaluated by TLC against the design-level dispatch properties (spec/Dispatch.tla: rows in range, row injectivity, AEAD-only-with-partner, stage-plan shape) and walked on the real library: for every cell, session acceptance and suite ids, job-API and burst-API execution with the stage hook recording each table dispatch, composition oracle and burst=job equality; spec/Trace_Dispatch.tla requires exactly the acceptance, error code, table rows and stage order the specification computes. Level B: spec/ChainOps.tla + Chain.tla model submit_new_job / RESUBMIT_JOB / complete_job over lane units (TLC: loops end, stage order, every unfinished job sits in the unit of its pending stage, each stage once); spec/Trace_Chain.tla composes it over the library's unit table and must predict call by call which jobs complete in mixed chained schedules (job and burst API).",
+         "The whole finite product of suites (21 952 cells) is evaluated by TLC against the design-level dispatch properties (spec/Dispatch.tla: rows in range, row injectivity, AEAD-only-with-partner, stage-plan shape) and walked on the real library: for every cell, session acceptance and suite ids, job-API and burst-API execution with the stage hook recording each table dispatch, composition oracle and burst=job equality; spec/Trace_Dispatch.tla requires exactly the acceptance, error code, table rows and stage order the specification computes. Level B: spec/ChainOps.tla + Chain.tla model submit_new_job / RESUBMIT_JOB / complete_job over lane units (TLC: loops end, stage order, every unfinished job sits in the unit of its pending stage, each stage once); spec/Trace_Chain.tla composes it over the library's unit table (every out-of-order manager: AES-CBC/CFB/CBCS, DES/3DES, DOCSIS, ZUC-EEA3/EIA3, SNOW3G-UEA2/UIA2, HMAC-*, SHA-*, CMAC/XCBC/CCM, CUSTOM) and must predict call by call which jobs complete in mixed schedules over the whole catalogue (job and burst API).",
          "that the single-algorithm jobs equal the published algorithms is C01/C02; CUSTOM, PON and SGL suites are checked for acceptance/suite ids only",
          "exhaustive enumeration in TLC + trace validation of the per-cell walk (stage hook H1)", "5 C06"),
  "C07": ("exploration",
